@@ -153,6 +153,19 @@ def gen(rng, kind, tier):
             k = 0  # a frame without droplets: nothing to refine, whatever the process count
         f = _emulsion_field(rng, dim, k, 0.05 if k else 0.0)
         opts = {"modes": int(rng.choice([0, 0, 2])) if dim == 2 else 0}
+        if rng.random() < 0.4:
+            opts["interface_width"] = float(rng.choice([0.5, 1.0, 1.5]))  # candidates then carry a width already
+        if f["grid"]["family"] == "cart" and k and rng.random() < 0.5:
+            # a droplet at the resolution limit, and a minimal radius that separates its estimate from its fit
+            n = f["grid"]["shape"][0]
+            for _ in range(100):
+                R = float(rng.uniform(1.3, 1.8))
+                c = rng.uniform(R + 2, n - R - 2, dim)
+                if all(np.linalg.norm(c - np.asarray(d["pos"])) > R + d["radius"] + 3 for d in f["droplets"]):
+                    f["droplets"].append({"cls": "DiffuseDroplet", "pos": c.tolist(), "radius": R, "width": 1.0, "amps": None})
+                    f["noise"] = 0.0 if rng.random() < 0.5 else 0.02
+                    opts["minimal_radius"] = "between" if rng.random() < 0.8 else float(rng.uniform(1.2, 1.9))
+                    break
         r = rng.random()
         if r < 0.3:
             opts["refine_args"] = {"vmin": None, "vmax": None}
@@ -278,6 +291,26 @@ def run_pool_case(case, rec, which):
         kw = {"refine": True, "modes": case["opts"].get("modes", 0)}
         if case["opts"].get("refine_args"):
             kw["refine_args"] = json.loads(json.dumps(case["opts"]["refine_args"]))
+        ckw = {}
+        if case["opts"].get("interface_width") is not None:
+            kw["interface_width"] = ckw["interface_width"] = case["opts"]["interface_width"]
+        mr = case["opts"].get("minimal_radius")
+        if mr == "between":
+            # the minimal radius lies between the smallest droplet's thresholding estimate and its fitted radius
+            # (both taken from an unjudged serial preview), so that the request decides whether it is kept
+            pre = common.monitored(rec, "preview:locate_droplets", lambda: (
+                droplets.locate_droplets(field, modes=kw["modes"], **ckw),
+                droplets.locate_droplets(field, num_processes=1, **json.loads(json.dumps(kw)))))
+            mr = None
+            if pre.ok and len(pre.result[0]) and len(pre.result[0]) == len(pre.result[1]):
+                est, fit = pre.result
+                i = int(np.argmin([d.radius for d in est]))
+                j = int(np.argmin([np.linalg.norm(np.asarray(d.position) - np.asarray(est[i].position)) for d in fit]))
+                mr = float((est[i].radius + fit[j].radius) / 2)
+                rec.count("minimal_radius_between_estimate_and_fit" if est[i].radius != fit[j].radius else "minimal_radius_at_estimate")
+        if mr is not None:
+            kw["minimal_radius"] = ckw["minimal_radius"] = mr
+            label += f" minimal_radius={mr!r}"
 
         def call(nproc):
             k = dict(kw)
@@ -285,7 +318,7 @@ def run_pool_case(case, rec, which):
                 k["refine_args"] = json.loads(json.dumps(k["refine_args"]))
             return droplets.locate_droplets(field, num_processes=nproc, **k)
 
-        cands = droplets.locate_droplets(field, modes=kw["modes"])
+        cands = droplets.locate_droplets(field, modes=kw["modes"], **ckw)
         # the task key is the candidate's data as it reaches refine_droplet
         keys = [hashlib.blake2b(np.ascontiguousarray(c.data).tobytes(), digest_size=8).hexdigest() for c in cands]
     else:
